@@ -13,9 +13,11 @@ type TimeoutToxic struct {
 func (t *TimeoutToxic) Pipe(stub *ToxicStub) {
 	timeout := time.Duration(t.Timeout) * time.Millisecond
 	if timeout > 0 {
+		// Arm the timer once: data arriving during the timeout must not postpone the close.
+		timer := time.After(timeout)
 		for {
 			select {
-			case <-time.After(timeout):
+			case <-timer:
 				stub.Close()
 				return
 			case <-stub.Interrupt:
